@@ -251,6 +251,7 @@ def run_h(mode, seq):
     def expect_item(i):
         return m.item_out[i]
 
+    size_when_closed = []
     for step, op in enumerate(seq):
         exp = None
         # ---------------- expected
@@ -346,6 +347,8 @@ def run_h(mode, seq):
         if got != exp:
             viol.append(("operation-result", {"step": step, "op": op, "expected": exp, "observed": got}))
             break
+        if closed_batch_problem(b, size_when_closed, viol, step, op):
+            break
     if not viol:
         if b.body_runs != m.body_runs:
             viol.append(("flush-body-run-count", {"expected": m.body_runs, "observed": b.body_runs}))
@@ -401,6 +404,7 @@ def run_debug(seq):
         m.err = None
         m.state = "flushed"
 
+    size_when_closed = []
     for step, op in enumerate(seq):
         exp = None
         if op == "add":
@@ -498,6 +502,8 @@ def run_debug(seq):
         if got != exp:
             viol.append(("operation-result", {"step": step, "op": op, "expected": exp, "observed": got, "class": "DebugBatch"}))
             break
+        if closed_batch_problem(b, size_when_closed, viol, step, op):
+            break
     if not viol and m.state != "pending":
         for i, it in enumerate(items):
             if not it.is_computed():
@@ -506,6 +512,29 @@ def run_debug(seq):
         if _debug_batch_state.batches.get(name) is b:
             viol.append(("finished-batch-still-active", {"class": "DebugBatch"}))
     return viol, fto, reached
+
+
+def closed_batch_problem(b, mem, viol, step, op):
+    """A finished batch stays closed: whatever is (still) listed in it is complete, and the list never grows -
+    also after an add-item that was, rightly, refused."""
+    try:
+        if not b.is_flushed():
+            return False
+        n = len(b.items)
+        if not mem:
+            mem.append(n)
+        if n > mem[0]:
+            viol.append(("finished-batch-grew", {"step": step, "op": op, "items_when_it_finished": mem[0], "items_now": n}))
+            return True
+        mem[0] = n
+        for it in b.items:
+            if not it.is_computed():
+                viol.append(("pending-item-listed-in-a-finished-batch", {"step": step, "op": op}))
+                return True
+    except BaseException as e:
+        viol.append(("state-query-raised", {"step": step, "op": op, "exc": xdesc(e)}))
+        return True
+    return False
 
 
 def run_unit(unit, progress):
